@@ -612,3 +612,95 @@ pub fn check(rec: &J) -> Verdict {
     let nontrivial = !(is_unk(exp));
     Verdict::ok(nontrivial)
 }
+
+// ---------------------------------------------------------------------------------------------
+// recorder for TableTrace (C14): the implementation's own comparison / logic / inc-dec / compound-assignment
+// tables over the pairs of the universe, for TLC to evaluate the laws of Laws.tla on
+
+fn res_json(r: ApiRes) -> J {
+    match r {
+        ApiRes::Val(v) => jv::from_val(&v),
+        ApiRes::Err(_) => json!({"t":"err"}),
+    }
+}
+
+fn compound(a: &J, b: &J, op: &str, expanded: bool) -> J {
+    let mut p = Prog::new();
+    p.setup("va", a);
+    p.setup("vb", b);
+    p.push(|l| put("vr", prim(var("va", l)), l));
+    let o = binop(op);
+    if expanded {
+        p.push(|l| put("vr", bin(o, prim(var("vr", l)), vec![prim(var("vb", l))]), l));
+    } else {
+        p.push(|l| assign(lhs_var("vr", l), Some(o), vec![prim(var("vb", l))]));
+    }
+    let obs = exec::run(&program(vec![p.stmts]), &RunCfg::default());
+    if obs.is_panic() {
+        return json!({"t":"panic"});
+    }
+    if !obs.is_ok() {
+        return json!({"t":"err"});
+    }
+    obs.last_stmt().and_then(|ev| var_json(ev, "vr")).unwrap_or(json!({"t":"missing"}))
+}
+
+pub fn record_lawtable(args: &[String]) -> i32 {
+    use std::io::Write;
+    let mut input = None;
+    let mut out = None;
+    let mut i = 0;
+    while i < args.len() {
+        match args[i].as_str() {
+            "--in" => { input = Some(args[i + 1].clone()); i += 1 }
+            "--out" => { out = Some(args[i + 1].clone()); i += 1 }
+            "--seed" | "--n" | "--maxlen" => { i += 1 }
+            a => { eprintln!("unknown option {}", a); return 2 }
+        }
+        i += 1;
+    }
+    let text = std::fs::read_to_string(input.expect("--in required")).expect("cannot read cases");
+    let mut f = std::fs::File::create(out.expect("--out required")).expect("cannot create trace file");
+    let ops = ["eq", "ne", "lt", "le", "gt", "ge", "and", "or", "nor"];
+    for line in text.lines() {
+        let rec: J = match crate::sup::extract(line).and_then(|j| serde_json::from_str(&j).ok()) {
+            Some(r) => r,
+            None => continue,
+        };
+        if rec["c"]["k"] != "laws" {
+            continue;
+        }
+        let (ja, jb) = (&rec["c"]["a"], &rec["c"]["b"]);
+        let (a, b) = (jv::to_val(ja), jv::to_val(jb));
+        let table = |x: &Val, y: &Val| -> J {
+            let mut m = serde_json::Map::new();
+            for op in ops {
+                m.insert(op.to_string(), res_json(api_fold(op, x, &[y.clone()])));
+            }
+            J::Object(m)
+        };
+        let t = |v: &Val| if v.is_truthy() { "T" } else { "F" };
+        let mut inc1 = serde_json::Map::new();
+        let mut inc2 = serde_json::Map::new();
+        for k in [1isize, 2, 3, -1, -2, -3] {
+            let mut v = a.clone();
+            let r1 = v.inc(k);
+            inc1.insert(k.to_string(), if r1.is_ok() { jv::from_val(&v) } else { json!({"t":"err"}) });
+            let r2 = if r1.is_ok() { v.inc(-k) } else { r1 };
+            inc2.insert(k.to_string(), if r2.is_ok() { jv::from_val(&v) } else { json!({"t":"err"}) });
+        }
+        let mut c1 = serde_json::Map::new();
+        let mut c2 = serde_json::Map::new();
+        for op in ["plus", "minus", "times", "over"] {
+            // string repetition by a huge count is a resource question: leave those cells out
+            let blow = op == "times" && matches!(&b, Val::Number(n) if *n > 1000.0) && !matches!(&a, Val::Number(_));
+            if !blow {
+                c1.insert(op.to_string(), compound(ja, jb, op, false));
+                c2.insert(op.to_string(), compound(ja, jb, op, true));
+            }
+        }
+        writeln!(f, "{}", json!({"a": ja, "b": jb, "ab": table(&a, &b), "ba": table(&b, &a), "ta": t(&a), "tb": t(&b),
+                                   "na": jv::from_val(&Val::Boolean(!a.is_truthy())), "inc1": inc1, "inc2": inc2, "c1": c1, "c2": c2})).unwrap();
+    }
+    0
+}
